@@ -326,4 +326,22 @@ CHECKS = {
                      'no clock hook: equal clock readings for two messages are unreachable here (a write system call separates two reads under the send lock)',
                      'a missing acknowledgement is a violation only when the client is quiescent (receive loop idle in two goroutine dumps)'],
     ),
+    'C11': dict(
+        pkg='./c11', test='TestC11', level='exploration', helpers={'vdriver': './cmd/vdriver'},
+        quick=dict(shards=8, checks=25, budget_s=900),
+        thorough=dict(shards=16, checks=600, budget_s=3400),
+        level_text=('Generated and enumerated salt-rotation histories against the reference server (real client, fresh process per case): session freshly keyed in the same process '
+                    'or resumed; per rotation some requests accepted before it (answers kept back) and some rejected by it; 1..3 rotations, pending requests carried across rotations, '
+                    'salts announced by bad_server_salt or new_session_created; answers in drawn orders. Checked on the server log, the client\'s hook log and the session file: '
+                    'every tagged request is accepted exactly once, no message that took its id after an adoption is sent under an older salt, every caller gets its own answer, no '
+                    'quiescent deadlock, later requests complete, the session file holds the adopted salt after every rotation.'),
+        technique='history enumeration (small) + generation (rapid) of salt-rotation scenarios against a reference server; state inspection for stalls',
+        rule=('case = plan (fresh|resumed; per rotation: accepted-before, rejected-by, answered-now counts, announcement kind, answer order). Non-trivial: at least one rotation with '
+              'a pending request; distinct by hash of the script.'),
+        must_hit=['fresh-keyed+rotation', 'second-rotation', 'accepted+rejected-mixed', 'pending-across-two-rotations', 'rotation-with-nothing-pending', 'salt-by-new_session_created',
+                  'session:resumed', 'verdict:ok'],
+        assumptions=['acknowledgements that the server rejects for their stale salt are not "requests": only tagged RPC requests are counted',
+                     'the hook after an adoption fires after the salt was assigned and saved, so a concurrently written message may already carry it: a newer salt is never blamed',
+                     'the session file is rewritten in place by the store; a torn read by the harness is repeated (the property is about the content once written)'],
+    ),
 }
